@@ -936,10 +936,10 @@ def explore(ctx, n_scale=1.0, monitors_only=False):
     rng = random.Random(ctx.seed * 7919 + 20)
     quick = ctx.tier == "quick"
     driver = None if monitors_only else ctx.driver
-    n_seq = int((36 if quick else 900) * n_scale)
-    n_thr = int((12 if quick else 150) * n_scale)
-    n_fun = int((150 if quick else 4000) * n_scale)
-    n_sort = int((150 if quick else 5000) * n_scale)
+    n_seq = int((90 if quick else 1200) * n_scale)
+    n_thr = int((30 if quick else 300) * n_scale)
+    n_fun = int((400 if quick else 6000) * n_scale)
+    n_sort = int((500 if quick else 8000) * n_scale)
     violations, disagreements = [], []
     gi = getattr(ctx, "gen_info", {}) or {}
     has_fallback = gi.get("Progress", {}).get("sort_has_fallback", hasattr(spo, "_fallback_sort_key"))
